@@ -52,6 +52,8 @@ type TS struct {
 	// OnBranch is called when an If edge is taken (cond not folded away or
 	// folded to this edge). Return ("", false) to keep the state.
 	OnBranch func(s *TSCtx, iff *ssa.If, taken bool) (string, bool)
+	// OnJump is called when an unconditional edge is taken (loop back edges, joins).
+	OnJump func(s *TSCtx, from, to *ssa.BasicBlock) (string, bool)
 	// Inline decides whether a resolved in-module callee is analysed in context.
 	Inline func(s *TSCtx, call ssa.CallInstruction, callee *ssa.Function) bool
 	// OnEnter/OnLeave are called around an inlined callee (optional).
@@ -220,7 +222,13 @@ func (ts *TS) execBlock(fr *Frame, b *ssa.BasicBlock, i int, a string, env Env, 
 			}
 			return
 		case *ssa.Jump:
-			*work = append(*work, tsItem{b: b.Succs[0], pred: b, a: a, env: env, defers: defers, trail: trail})
+			na := a
+			if ts.OnJump != nil {
+				if s, ch := ts.OnJump(sc, b, b.Succs[0]); ch {
+					na = s
+				}
+			}
+			*work = append(*work, tsItem{b: b.Succs[0], pred: b, a: na, env: env, defers: defers, trail: sc.Trail})
 			return
 		case *ssa.Return:
 			var rets []constant.Value
